@@ -1,5 +1,5 @@
 import VgiVerif.Prelude.JsonUtil
-import VgiVerif.Prelude.Base64
+import VgiVerif.Prelude.Base64Std
 import VgiVerif.Model.Token
 namespace VgiVerif.Token.Driver
 open Lean VgiVerif.J VgiVerif.Token
@@ -118,13 +118,13 @@ def handle (fn : String) (a : Json) : R Json := do
         | none => Json.null
         | some (st, msg) => ofList [Json.str st, Json.str msg])
   | "b64dec" =>
-    pure (match Base64.decValidate (← bytesF a "w") with | none => Json.null | some b => ofBytes b)
-  | "b64enc" => pure (ofBytes (Base64.enc (← bytesF a "b")))
+    pure (match Base64Std.decValidate (← bytesF a "w") with | none => Json.null | some b => ofBytes b)
+  | "b64enc" => pure (ofBytes (Base64Std.enc (← bytesF a "b")))
   | "b64strict" =>
     let w ← bytesF a "w"
-    pure (match Base64.decValidate w with
+    pure (match Base64Std.decValidate w with
       | none => Json.null
-      | some b => if Base64.enc b == w then ofBytes b else Json.null)
+      | some b => if Base64Std.enc b == w then ofBytes b else Json.null)
   | _ => throw s!"unknown function Token.{fn}"
 
 end VgiVerif.Token.Driver
